@@ -37,6 +37,35 @@ Proof.
       cbn. rewrite app_nil_r. apply Permutation_refl.
 Qed.
 
+Lemma perm_fill {X} (R S F : list X) v : Permutation ((R ++ S) ++ (F ++ [v])) ((F ++ S) ++ v :: R).
+Proof.
+  eapply Permutation_trans; [apply Permutation_app_comm|]. rewrite <- !app_assoc. apply Permutation_app_head.
+  change ([v] ++ R ++ S) with ((v :: R) ++ S). apply Permutation_app_comm.
+Qed.
+
+Lemma fuse_ledger cf h kind k o h' ob :
+  fuse_fires cf h kind k o = Some (h', ob) ->
+  Permutation (data (h_td h') ++ ob_dropped ob ++ ob_leaked ob) (data (h_td h) ++ fuse_given h kind k o).
+Proof.
+  unfold fuse_fires, fuse_given. intros Ef.
+  destruct kind as [|[|kind]]; [| |discriminate]; destruct o; try discriminate.
+  - destruct (zero_rule_ok c r); [|discriminate]. destruct (checked_mul r c); [|discriminate].
+    destruct ((n <=? cf_cap cf)%N && (S k <? N.to_nat n)); inversion Ef; subst; cbn [h_td ob_dropped ob_leaked].
+    rewrite app_nil_r. apply Permutation_refl.
+  - destruct (Nat.ltb_spec (S k) (length (data (h_td h)))); inversion Ef; subst; cbn [h_td data ob_dropped ob_leaked].
+    rewrite app_nil_r. set (old := data (h_td h)).
+    rewrite <- (firstn_skipn k old) at 3. change (repeat v (S k)) with (v :: repeat v k).
+    apply perm_fill.
+  - destruct (k <? length (data (h_td h))); inversion Ef; subst; cbn [h_td ob_dropped ob_leaked].
+    rewrite app_nil_r. apply Permutation_refl.
+  - destruct (zero_rule_ok c r); [|discriminate]. destruct (checked_mul c r); [|discriminate].
+    destruct ((n =? N.of_nat (length d))%N && (k <? length d)); inversion Ef; subst; cbn [h_td ob_dropped ob_leaked].
+    rewrite app_nil_r. apply Permutation_app_head. apply Permutation_app_comm.
+  - destruct (zero_rule_ok c r); [|discriminate]. destruct (checked_mul c r); [|discriminate].
+    destruct ((n <=? cf_cap cf)%N && (k <? N.to_nat n)); inversion Ef; subst; cbn [h_td ob_dropped ob_leaked].
+    rewrite app_nil_r. apply Permutation_refl.
+Qed.
+
 Theorem hstep_ledger_all cf : forall o h h' ob,
   Inv (h_td h) -> (N.of_nat (length (data (h_td h))) < W)%N ->
   hstep cf h o = Ok (h', ob) ->
@@ -48,7 +77,7 @@ Proof.
   { intros o h h' ob Hff Hi Hw H. destruct (hstep_ledger cf o h h' ob Hi Hw Hff H) as [Hp Hk].
     rewrite Hk, app_nil_r. exact Hp. }
   induction o as [c r d|c r|c r v| |idx s|s|idx s|s|idx steps fin|steps fin|idx steps fin|steps fin
-                  | | | |c r v|v| | |k| |k o IH]; intros h h' ob Hi Hw H;
+                  | | | |c r v|v| | |k| |k o IH|kind k o IH|c r d]; intros h h' ob Hi Hw H;
     try (apply Hplain; [reflexivity|exact Hi|exact Hw|exact H]); cbn [hstep supplied] in *.
   - destruct (insert_row_any (cf_dbg cf) (cf_cap cf) (cf_spare cf) (h_td h) idx s Hi) as [r [E [_ Ha]]].
     unfold of_opres in H. rewrite E in H. cbn [bind] in H. inversion H; subst; cbn [h_td ob_dropped ob_leaked]. exact Ha.
@@ -78,6 +107,10 @@ Proof.
     destruct (hstep cf h o) as [[h1 ob1]| |] eqn:E; cbn [bind] in H; try discriminate.
     pose proof (IH h h1 ob1 Hi Hw E) as Hp.
     destruct (negb (cf_track cf)); inversion H; subst; cbn [ob_dropped ob_leaked]; exact Hp.
+  - (* a Clone / Default that panics at its k-th call *)
+    destruct (negb (cf_track cf)); [apply IH; assumption|].
+    destruct (fuse_fires cf h kind k o) as [[h1 ob1]|] eqn:Ef; [|apply IH; assumption].
+    inversion H; subst h1 ob1. apply (fuse_ledger cf h kind k o h' ob Ef).
 Qed.
 
 (** whole histories: the final array, everything dropped and everything leaked along the
